@@ -183,8 +183,9 @@ fn gen_query(rng: &mut Rng, vocab: usize) -> (Value, &'static str) {
       _ => json!({"type": "dis_max", "queries": ws[..n].iter().map(|w| term(w, bo(rng))).collect::<Vec<_>>(), "tie_breaker": *rng.pick(&[0.0, 0.4, 1.0])}),
     }
   };
-  match rng.below(8) {
+  match rng.below(9) {
     0 => (json!({"type": "match_all"}), "match_all"),
+    8 => (term(ws[0], bo(rng)), "single_term"),
     1 => {
       let inner = plain(rng);
       let f = json!({"type": "field_value_factor", "field": *rng.pick(&["n", "p"]), "factor": *rng.pick(&[1.0, 0.5]), "modifier": *rng.pick(&["none", "log1p", "sqrt"]), "missing": 1.0});
@@ -380,6 +381,31 @@ impl Prop for C10 {
           } else {
             s.fail("score.rank-feature", "rank_feature score differs from modifier(value or missing) * boost", case, obs);
           }
+          break;
+        }
+      }
+    }
+    // ---- finder (d): a single term query scores every hit with BM25 of the statement:
+    // idf(N_live, df) * tf*(k1+1) / (tf + k1*(1-b+b*len/avgdl)) * boost, per segment
+    if case["kind"] == json!("single_term") && plan.iter().any(|(f, _)| f == "_score") {
+      let q = &case["query"];
+      let w = q["value"].as_str().unwrap_or("");
+      let boost = q["boost"].as_f64().unwrap_or(1.0);
+      let (k1, b) = (1.2f64, 0.75f64);
+      for r in rows.iter() {
+        let seg = segments[r.2].as_array().cloned().unwrap_or_default();
+        let toks = |d: &Value| -> Vec<String> { d["body"].as_str().unwrap_or("").split_whitespace().map(|x| x.to_string()).collect() };
+        let n_live = seg.iter().filter(|d| !deletes.contains(&d["_id"].as_str().unwrap_or("").to_string())).count() as f64;
+        let df = seg.iter().filter(|d| toks(d).iter().any(|t| t == w)).count() as f64;
+        let total: usize = seg.iter().map(|d| toks(d).len()).sum();
+        let avgdl = total as f64 / seg.len() as f64;
+        let mine = toks(&r.0);
+        let tf = mine.iter().filter(|t| *t == w).count() as f64;
+        let len = mine.len() as f64;
+        let idf = ((n_live - df + 0.5) / (df + 0.5)).ln().max(0.0) + 1.0;
+        let want = idf * (tf * (k1 + 1.0)) / (tf + k1 * (1.0 - b + b * len / avgdl)) * boost;
+        if !idx::close(want, r.1, 2e-5) {
+          s.fail("score.bm25", "the score of a single term query differs from BM25 with the index k1/b and the segment's statistics (N = live docs, df, avgdl, field length) times the boost", case, json!({"id": r.0["_id"], "expected": want, "observed": r.1, "tf": tf, "len": len, "df": df, "n_live": n_live, "avgdl": avgdl}));
           break;
         }
       }
